@@ -193,7 +193,71 @@ class _DeMorgan(ast.NodeTransformer):
 _PACKAGE_SIGS = {}
 
 
+class _Literals(ast.NodeTransformer):
+    """{} <-> dict(), [] <-> list() for empty containers"""
+
+    def visit_Dict(self, n):
+        self.generic_visit(n)
+        if not n.keys:
+            return ast.Call(func=ast.Name(id="dict", ctx=ast.Load()), args=[], keywords=[])
+        return n
+
+    def visit_List(self, n):
+        self.generic_visit(n)
+        if not n.elts and isinstance(n.ctx, ast.Load):
+            return ast.Call(func=ast.Name(id="list", ctx=ast.Load()), args=[], keywords=[])
+        return n
+
+
+def _pure(e):
+    return all(isinstance(x, (ast.Name, ast.Constant, ast.Attribute, ast.Subscript, ast.Load, ast.UnaryOp, ast.USub, ast.BinOp, ast.Add, ast.Sub, ast.Slice,
+                              ast.Call, ast.Tuple))
+               and not (isinstance(x, ast.Call) and not (isinstance(x.func, ast.Name) and x.func.id == "len")) for x in ast.walk(e))
+
+
+class _MirrorCompare(ast.NodeTransformer):
+    """a < b -> b > a (and the other three order comparisons) when both sides are free of side effects"""
+    MIRROR = {ast.Lt: ast.Gt, ast.Gt: ast.Lt, ast.LtE: ast.GtE, ast.GtE: ast.LtE}
+
+    def visit_Compare(self, n):
+        self.generic_visit(n)
+        if len(n.ops) == 1 and type(n.ops[0]) in self.MIRROR and _pure(n.left) and _pure(n.comparators[0]):
+            return ast.Compare(left=n.comparators[0], ops=[self.MIRROR[type(n.ops[0])]()], comparators=[n.left])
+        return n
+
+
+class _ExtractReturn(ast.NodeTransformer):
+    """return <expr>  ->  result_ = <expr>; return result_   (for anything but a bare name / constant)"""
+
+    def visit_FunctionDef(self, fn):
+        self.generic_visit(fn)
+        return fn
+
+    def visit_Return(self, n):
+        if n.value is None or isinstance(n.value, (ast.Name, ast.Constant)):
+            return n
+        tmp = "result_"
+        return [ast.Assign(targets=[ast.Name(id=tmp, ctx=ast.Store())], value=n.value, lineno=n.lineno),
+                ast.Return(value=ast.Name(id=tmp, ctx=ast.Load()))]
+
+
+class _SplitAnd(ast.NodeTransformer):
+    """if a and b: X  (no else)  ->  if a: if b: X"""
+
+    def visit_If(self, n):
+        self.generic_visit(n)
+        if not n.orelse and isinstance(n.test, ast.BoolOp) and isinstance(n.test.op, ast.And) and len(n.test.values) == 2:
+            a, b = n.test.values
+            return ast.If(test=a, body=[ast.If(test=b, body=n.body, orelse=[])], orelse=[])
+        return n
+
+
 def _transform_tree(kind, tree):
+    simple = {"literals": _Literals, "mirror-compare": _MirrorCompare, "extract-return": _ExtractReturn, "split-and": _SplitAnd}
+    if kind in simple:
+        tree = simple[kind]().visit(tree)
+        ast.fix_missing_locations(tree)
+        return tree
     if kind == "keyword-args":
         tree = _Keywordise(_PACKAGE_SIGS).visit(tree)
         ast.fix_missing_locations(tree)
@@ -234,8 +298,9 @@ def _transform_tree(kind, tree):
     return tree
 
 
-GLOBAL_BENIGN = ("reformat", "rename-locals", "invert-if", "range-aug", "temporaries", "keyword-args", "negated-compare", "all-composed")
-COMPOSED = ("keyword-args", "negated-compare", "invert-if", "range-aug", "temporaries", "rename-locals")
+GLOBAL_BENIGN = ("reformat", "rename-locals", "invert-if", "range-aug", "temporaries", "keyword-args", "negated-compare", "literals", "mirror-compare",
+                 "extract-return", "split-and", "all-composed")
+COMPOSED = ("keyword-args", "negated-compare", "invert-if", "range-aug", "split-and", "mirror-compare", "literals", "extract-return", "temporaries", "rename-locals")
 
 
 def run_global_benign(args):
@@ -287,6 +352,8 @@ def run_global_benign(args):
             for o in obs:
                 if o.ok is False and not report.is_known(known, prop, o):
                     out["new_failures"].append("%s:%s %s" % (o.oid, o.instance, o.construct[:80]))
+                elif o.ok is None:
+                    out["errors"].append("%s: undecided %s:%s %s" % (rname, o.oid, o.instance, o.reason[:100]))
         return out
     finally:
         shutil.rmtree(d, ignore_errors=True)
